@@ -259,8 +259,8 @@ where
                             }
                         }
                     } else {
-                        if !self.contains(&item) {
-                            //will do either binary or linear search
+                        if !self.array.contains(&item) {
+                            //linear search: items added during this union break the sorting until the re-sort below
                             updated = true;
                             self.add_unchecked(item);
                         }
